@@ -104,6 +104,18 @@ class NativeK(KBase):
             except Exception:
                 continue  # refers to a Skolem cell not created yet: handled in cell()
             self._set_cell(arr, kind, idx, v)
+        # global predicates decided by the solver: "allzero(name|axis=comp,...)" = 1 -> that sub-array is zero
+        for k, v in self.model.items():
+            m = re.match(r"^(allzero|allclose)\(" + re.escape(name) + r"\|(.*)\)$", k)
+            if m and v == 1:
+                sl = [slice(None)] * arr.ndim
+                for part in [x for x in m.group(2).split(",") if x]:
+                    ax, comp = part.split("=")
+                    try:
+                        sl[int(ax)] = int(comp)
+                    except ValueError:
+                        pass
+                arr[tuple(sl)] = 0 if m.group(1) == "allzero" else arr[tuple(sl)] * 1e-9
         self.arrays[name] = (arr, kind, shape)
         self.saved[id(arr)] = arr.copy()
         return arr
